@@ -160,6 +160,20 @@ func WorkerMain(t *testing.T, eng Engine) {
 			tp := NewTape(splitmix(rs))
 			r := eng.Exec(t, eng.Gen(rs, cfg.Params), tp, false)
 			fmt.Printf("RUNHASH %d seed=%d %s %s steps=%d\n", idx, rs, r.LogHash[:16], r.Outcome, r.Steps)
+			if os.Getenv("VERIF_DIFF_LOG") != "" {
+				a := eng.Exec(t, eng.Gen(rs, cfg.Params), NewTape(splitmix(rs)), true)
+				b := eng.Exec(t, eng.Gen(rs, cfg.Params), NewTape(splitmix(rs)), true)
+				fmt.Printf("DIFFLOG %d hashes %s %s lens %d %d\n", idx, a.LogHash[:12], b.LogHash[:12], len(a.Log), len(b.Log))
+				for i := 0; i < len(a.Log) && i < len(b.Log); i++ {
+					if a.Log[i] != b.Log[i] && !strings.Contains(a.Log[i], " LOG ") {
+						lo := max(0, i-12)
+						for j := lo; j < min(i+6, len(a.Log), len(b.Log)); j++ {
+							fmt.Printf("  A %s\n  B %s\n", a.Log[j], b.Log[j])
+						}
+						break
+					}
+				}
+			}
 			rp := ReplayTape(tp.Rec)
 			r2 := eng.Exec(t, eng.Gen(rs, cfg.Params), rp, false)
 			fmt.Printf("REPLAYHASH %d %s %s steps=%d taperec=%d replayed=%d\n", idx, r2.LogHash[:16], r2.Outcome, r2.Steps, len(tp.Rec), rp.pos)
